@@ -264,6 +264,11 @@ class Interp:
         init = d.get("init")
         if "PermutationMatrix" in t:
             m = re.search(r"PermutationMatrix<\s*(\d+)", t)
+            # initialised from a helper that builds the permutation (e.g. a sorting permutation returned by value)
+            if init is not None and any(x.get("k") == "CallExpr" for x in _walk(init)):
+                v = self.rv(self.ev(init, env, depth, f))
+                if isinstance(v, tuple) and v and v[0] == "perm":
+                    return v
             return ("perm", None, int(m.group(1)) if m else None, None)
         if "JacobiSVD" in t or "SelfAdjointEigenSolver" in t:
             kind = "svd" if "JacobiSVD" in t else "eig"
